@@ -32,6 +32,8 @@ class Ctx:
 
     def require(self, dotted: str) -> FunctionInfo:
         """An anchored function: its disappearance is an analysis error, never a silent pass."""
+        if isinstance(dotted, FunctionInfo):
+            return dotted
         return self.prog.func(dotted)
 
     def methods(self, cls: str) -> Dict[str, FunctionInfo]:
